@@ -400,7 +400,7 @@ pub fn traffic_bound(call: &Call, retries: u64, needs_init: bool) -> u64 {
         Call::Read(1, _) => cmd + read_data(512),
         Call::Read(n, _) => 2 * cmd + *n as u64 * read_data(512),
         Call::Write(_, bs) if bs.len() == 1 => 2 * cmd + write_data(512) + p(wr) + 1,
-        Call::Write(_, bs) => 3 * cmd + 2 * p(wr) + bs.len() as u64 * (p(wr) + write_data(512)) + 1,
+        Call::Write(_, bs) => 3 * cmd + 3 * p(wr) + bs.len() as u64 * (p(wr) + write_data(512)) + 1,
         Call::NumBlocks | Call::NumBytes => cmd + read_data(16),
         Call::CardType | Call::MarkUninit => 0,
     };
@@ -673,11 +673,22 @@ fn slow_card_session(ctx: &Ctx, rng: &mut Rng, rep: &mut Report, k: usize, tag: 
     let (r0, l0, d0) = rig.call(&Call::CardType);
     correspond(rep, &mut rig, &Call::CardType, &r0, &l0, d0, tag);
     let b = block_pattern(rng);
-    for c in [Call::Write(2, vec![b]), Call::Read(1, 2)] {
+    let b2 = block_pattern(rng);
+    // a single-block write and its read-back, then multiple-block writes directly followed by other calls (the
+    // card is still programming when the stop token has been sent; the driver has to wait for it with the write
+    // budget).  The specification card has ONE busy parameter, also used for the R1b answer to CMD12; a real
+    // card's busy after stopping a READ is short, so the multiple-block read comes last (nothing follows it).
+    for c in [Call::Write(2, vec![b]), Call::Read(1, 2), Call::Write(4, vec![b2, b]), Call::Read(1, 5), Call::Read(1, 4), Call::Write(7, vec![b, b2, b]), Call::Write(2, vec![b2]), Call::Read(1, 9), Call::Read(2, 4)] {
         let (res, log, delays) = rig.call(&c);
         rep.ops += 1;
         rep.oracle_checks += 1;
-        let good = match &c { Call::Write(..) => res == "ok", _ => res == format!("ok blocks {}", hex(&b)) };
+        let good = match &c {
+            Call::Write(..) => res == "ok",
+            Call::Read(1, 2) | Call::Read(1, 5) => res == format!("ok blocks {}", hex(&b)),
+            Call::Read(1, 4) => res == format!("ok blocks {}", hex(&b2)),
+            Call::Read(2, 4) => res == format!("ok blocks {}{}", hex(&b2), hex(&b)),
+            _ => res.starts_with("ok blocks "),
+        };
         if !good {
             rep.violation("impl-vs-spec", "legal-slow-card-fails", &format!("`{}` against a card with legal timing (busy {} bytes, token delay {} bytes: both below the driver's budgets) returned `{}`", c.show(), busy, nac, trunc(&res, 60)), J::obj(vec![("case", J::s(tag.to_string())), ("kind", J::s(cfg.kind.token())), ("timing", J::s(format!("{:?}", cfg.timing)))]));
         }
@@ -867,7 +878,86 @@ pub fn c13(ctx: &Ctx) -> Report {
             }
         }
     }
-    rep.rule = "fault injection between the Lean card specification and the real driver: every single-bit flip of a data block and its CRC (4112 positions; every 7th in quick) and random bursts up to 16 bits with CRC on must give CrcError; the card going silent / busy forever / returning garbage from every (sampled) byte position of identification, single and multi-block read and write, CSD read, in both CRC modes: every call returns within the traffic bound computed from the retry budgets, never panics, a failed identification is retried from CMD0 by the next call, and after the card recovers and is marked uninitialised it is usable again; data responses other than 'accepted', SPI errors at every transaction; every faulty run is also replayed on the Lean driver model; distinct = fault placements".into();
+    // ---- (d) every answer byte of the identification, of a write and of a CSD read replaced by other values:
+    // drives every error branch of `acquire` (wrong R1 to CMD0 -> retry, CRC not enabled, CMD8 echo mismatch,
+    // CMD58 error), of the write status check (CMD13 R2) and of the data tokens; every run is replayed on the
+    // Lean driver model, must stay inside the traffic bound, must not panic, and a failed identification must
+    // leave the card uninitialised (the next call starts again with CMD0)
+    for (k, crc) in [(0usize, true), (1, false), (2, true)] {
+        if k == 2 && !ctx.thorough {
+            continue;
+        }
+        let cfg = random_cfg(&mut rng, k);
+        let tag = format!("c13r/{}/{k}", ctx.seed);
+        let blk = block_pattern(&mut rng);
+        let calls = vec![Call::CardType, Call::Write(1, vec![blk]), Call::NumBlocks, Call::Write(2, vec![blk, blk]), Call::Read(2, 1)];
+        let retries = cfg.retries.min(2);
+        // the clean conversation: which MISO bytes carry information (not 0xFF)
+        let mut rig = Rig::new(&ctx.model_path, cfg.kind, cfg.csd.clone(), cfg.timing, crc, retries, rng.next());
+        let mut informative: Vec<(usize, usize, u8)> = Vec::new(); // (call index, global MISO index, clean value)
+        for (ci, c) in calls.iter().enumerate() {
+            let before = rig.bus.borrow().miso_bytes;
+            let (_r, log, _d) = rig.call(c);
+            let mut g = before;
+            for t in &log {
+                if let Some(inp) = &t.inp {
+                    // answers to a command frame / token bytes; the 512 data bytes of the read are covered by (a)
+                    if inp.len() <= 16 {
+                        for (j, b) in inp.iter().enumerate() {
+                            if *b != 0xFF {
+                                informative.push((ci, g + j, *b));
+                            }
+                        }
+                    }
+                }
+                g += t.out.len();
+            }
+        }
+        let values: Vec<u8> = vec![0x00, 0x01, 0x04, 0x05, 0x0B, 0xAA, 0xC0, 0x7F, 0xFE];
+        let stride = if ctx.thorough { 1 } else { 7 };
+        for (n, (ci, pos, clean)) in informative.iter().enumerate() {
+            if n % stride != (k % stride) {
+                continue;
+            }
+            for v in values.iter().filter(|v| **v != *clean).skip(if ctx.thorough { 0 } else { n % 3 }).take(if ctx.thorough { 9 } else { 3 }) {
+                let mut rig = Rig::new(&ctx.model_path, cfg.kind, cfg.csd.clone(), cfg.timing, crc, retries, rng.next());
+                rig.bus.borrow_mut().faults.replace = vec![(*pos, *v)];
+                rep.cases += 1;
+                rep.count("replace:answer-byte");
+                rep.count(&format!("replace:in-call:{}", calls[*ci].show().split(' ').next().unwrap_or("?")));
+                let mut initialised = false;
+                // the calls up to the one whose answer is replaced, and the one after it (recovery)
+                for c in calls.iter().take(*ci + 2) {
+                    let (res, log, delays) = rig.call(c);
+                    let bytes: u64 = log.iter().map(|t| t.out.len() as u64).sum();
+                    let bound = traffic_bound(c, retries as u64, !initialised);
+                    rep.oracle_checks += 2;
+                    if rig.bus.borrow().capped || bytes > bound {
+                        rep.violation("impl-vs-spec", "sd-traffic-bound", &format!("{} exchanged {bytes} bytes with answer byte {pos} replaced by {v:#04x} (bound {bound})", c.show()), J::obj(vec![("case", J::s(tag.clone())), ("pos", J::i(*pos as i128)), ("value", J::i(*v as i128))]));
+                    }
+                    if res == "panic" {
+                        rep.violation("impl-vs-spec", "sd-panic", &format!("`{}` panicked with answer byte {pos} ({clean:#04x}) replaced by {v:#04x}", c.show()), J::obj(vec![("case", J::s(tag.clone())), ("pos", J::i(*pos as i128)), ("value", J::i(*v as i128)), ("kind", J::s(cfg.kind.token()))]));
+                    }
+                    let first_frame = log.iter().find(|t| t.out.len() == 6 && (t.out[0] & 0xC0) == 0x40).map(|t| t.out[0] & 0x3F);
+                    if !initialised && !matches!(c, Call::MarkUninit) {
+                        rep.oracle_checks += 1;
+                        if first_frame.is_some() && first_frame != Some(0) {
+                            rep.violation("impl-vs-spec", "init-skipped-after-failure", &format!("`{}`: the card was never initialised successfully but the first command is {:?}, not CMD0", c.show(), first_frame), J::obj(vec![("case", J::s(tag.clone())), ("pos", J::i(*pos as i128)), ("value", J::i(*v as i128))]));
+                        }
+                    }
+                    if res.starts_with("err") {
+                        rep.count(&format!("replace:res:{}", res.split(' ').nth(1).unwrap_or("?").split('.').next().unwrap_or("?")));
+                    }
+                    correspond(&mut rep, &mut rig, c, &res, &log, delays, &tag);
+                    if matches!(c, Call::CardType) && rig.ctype == "none" {
+                        rep.count("replace:identification-failed");
+                    }
+                    initialised = rig.ctype != "none";
+                }
+            }
+        }
+    }
+    rep.rule = "fault injection between the Lean card specification and the real driver: every single-bit flip of a data block and its CRC (4112 positions; every 7th in quick) and random bursts up to 16 bits with CRC on must give CrcError; the card going silent / busy forever / returning garbage from every (sampled) byte position of identification, single and multi-block read and write, CSD read, in both CRC modes: every call returns within the traffic bound computed from the retry budgets, never panics, a failed identification is retried from CMD0 by the next call, and after the card recovers and is marked uninitialised it is usable again; data responses other than 'accepted', SPI errors at every transaction; every informative answer byte (R1/R3/R7 responses, tokens, status bytes) of identification, single- and multi-block write and CSD read replaced by a set of other values (all error branches of acquire and of the write status check); every faulty run is also replayed on the Lean driver model; distinct = fault placements".into();
     rep.distinct_nontrivial = rep.cases;
     rep
 }
